@@ -77,7 +77,8 @@ def C39(ctx):
         mc_states += r.distinct
     # G: seeded histories from random initial configurations, every step an instance of the specification's actions
     k = 8 if q else 10
-    walks = 350 if q else 4000
+    nsys = 576          # GenAccount.NSys: the systematic one-call histories (inputs of the decision x method x badge status)
+    walks = nsys + (200 if q else 4000)
     out_file = ctx.wpath("gen.out")
     g = tlc("Account", "GenAccount", workers=4, consts={"Walks": walks, "K": k, "Seed": ctx.seed % 65521}, timeout=6000,
             out_file=out_file, heap="4g")
@@ -88,6 +89,9 @@ def C39(ctx):
     g.out = ""
     if len(hists) != walks:
         raise ToolError("GenAccount produced %d of %d histories" % (len(hists), walks))
+    sysh = [h for h in hists if len(h) == 2 and h[1]["op"] in TRY_OPS and len(h[1]["bs"]) == 1]
+    if len({(h[1]["op"], json.dumps(h[1]["cell"]["inputs"]), h[1]["cell"]["badge"]) for h in sysh}) < nsys:
+        raise ToolError("the systematic family of GenAccount is incomplete")
     steps = [e for h in hists for e in h[1:]]
     # non-vacuity: every row of the statement's case analysis for every guarded method, the batch phenomena, every class
     cells = collections.Counter((e["op"], e["cell"]["all"], e["cell"]["badge"]) for e in steps if e["op"] in TRY_OPS)
@@ -118,10 +122,10 @@ def C39(ctx):
     ctx.sample({"history_step": next(e for e in steps if e["class"] == "AssertAccessRuleFailed")})
     ctx.sample({"history_step": next(e for e in steps if e["op"] in TRY_OPS and e["cell"]["badge"] == "vouched" and not e["cell"]["all"])})
     ctx.sample({"history": next(h for h in hists if any(e["cell"]["newvault"] for e in h[1:]) and h[0]["st"]["default"] == "existing")[:4]})
-    mism, classes = replay_histories(ctx, hists, key=c39_key, parts=1 if q else 4)
+    mism, classes = replay_histories(ctx, hists, key=c39_key, parts=2 if q else 4)
 
     # binding self-test: corrupted expectations (class, account balance, returned-to-sink balance, events) must be reported
-    bad = json.loads(json.dumps(hists[:60]))
+    bad = json.loads(json.dumps(hists[:300]))
 
     def find(pred):
         return next((i, j) for i, h in enumerate(bad) for j, e in enumerate(h) if j > 0 and pred(e))
@@ -145,14 +149,16 @@ def C39(ctx):
             "rule": "MCAccount: every reachable account configuration (3 default rules x preferences of 3 resources x authorized "
                     "depositor sets x vault sets) x 6 deposit methods x every bucket list of %s x every caller (named badge or none x "
                     "proofs presented x owner signature) and every configuration call, with the statement as action properties; "
-                    "GenAccount: %d seeded histories of %d operations from random initial configurations (deposit methods with "
+                    "GenAccount: systematically the full product (XRD or not x preference x default rule x vault exists) x 4 guarded "
+                    "methods x badge none / unlisted / unproven / proven as 576 one-call histories, and %d seeded histories of %d "
+                    "operations from random initial configurations (deposit methods with "
                     "batches of 0..3 buckets over XRD / a fungible / a non-fungible resource with amounts 0..2, 4 badges: resource, "
                     "non-fungible id, signature, the id's resource; configuration changes in between), each operation one real "
                     "transaction source -> account -> sink, comparing receipt class, Deposit / RejectedDeposit events, the account's "
                     "rule, preferences, depositors, vaults and balances and the balance changes of source and sink after every step; "
                     "distinct = distinct histories" % ("<= 2 buckets (amounts 0..1, 1 badge)" if q else
                                                        "<= 2 buckets (amounts 0..1, 2 badges) and <= 3 buckets (amount 1, badges id / its resource)",
-                                                       len(hists), k)}
+                                                       len(hists) - nsys, k)}
 
 
 PROPS = {
